@@ -17,7 +17,8 @@ func classesFor(op string) []string {
 	if op == "Read" {
 		return []string{"fatal", "deadline", "zero"}
 	}
-	return []string{"fatal"}
+	// a failure whose error is also of the timeout kind (a send / setsockopt that times out) is still a failure
+	return []string{"fatal", "fatal-timeout"}
 }
 
 func base(v string, dest int) proto.Scn {
@@ -86,7 +87,7 @@ func check(it *proto.Item, r *proto.Result) []proto.Issue {
 		}
 	} else {
 		switch cl {
-		case "fatal":
+		case "fatal", "fatal-timeout":
 			if o.Err == nil {
 				out = append(out, proto.Issue{Key: "failure-swallowed", Detail: fmt.Sprintf("%s: the run returned success with hops %s", where, proto.HopsString(proto.Hops(o.Run)))})
 			} else {
